@@ -57,6 +57,9 @@ EXPECTED_PROBES = ["overlapping_requests_same_key", "acquire_blocked",
                    "strong_cache_full", "fallback_second_tzpath",
                    "archive_served", "local_zone_after_set_tz"]
 
+REAL = ['dateutil.tz factories (gettz, tzoffset, tzstr, tzutc), tzfile, dateutil.zoneinfo from /repo/src', 'CPython weakref.WeakValueDictionary (pre-emptible in the deep class), OrderedDict, pickle, copy', 'reference counting of CPython 3.12', 'glibc tzset under the real TZ variable', 'real OS threads (parked; one runs at a time)']
+STUB = ['factory mutexes (SimLock)', 'thread scheduling (LINE events of tz/_factories.py, tz/tz.py, and weakref.py in the deep class)', 'cyclic GC timing (disabled; explicit gc events) and reference drops as events', 'file system and bundled archive (SimFS) with injected faults', 'zone data: generated well-behaved TZif files']
+
 CLASSES = {
     "threads": dict(quick=5000, thorough=80000, timeout=40),
     "deep":    dict(quick=5000, thorough=80000, timeout=40),
